@@ -27,11 +27,7 @@ def run(run):
             open(os.path.join(d, "p", "F%d.java" % i), "w").write(g.file("K%d_" % i)[0])
         # statements with and without their optional parts, side by side: a filter through the optional part keeps the
         # entities that have it, whatever the others do
-        open(os.path.join(d, "p", "Optional.java"), "w").write(
-            "class Optional {\n" + "".join(
-                "  int r%d(int total, boolean c) {\n    for (;;) { if (c) { return total; } break; }\n    for (int i = 0; i < total; i++) { total = total - 1; }\n"
-                "    assert c;\n    assert c : \"message %d\";\n    if (c) { return total; }\n    return total + %d;\n  }\n  void v%d(boolean c) {\n    if (c) { return; }\n    return;\n  }\n" % (j, j, j, j)
-                for j in range(6)) + "}\n")
+        open(os.path.join(d, "p", "Optional.java"), "w").write(G.optional_parts())
         h = C.Harness()
         r = h.call(op="scan", dir=os.path.join(d, "p"), graph="g")
         if r.get("outcome") != "ok":
@@ -114,6 +110,49 @@ def run(run):
                                   (k, q, rr.get("outcome"), got, want, why),
                                   dict(java="kitchen_sink()+generated", query=q, outcome=rr.get("outcome"), got=got, want=want,
                                        panic=rr.get("panic")))
+        # two kinds in one FROM list (C19_bindings_distinct): each alias stays bound to its own kind, in either order.
+        # Graph: the kitchen sink alone (every kind, few entities each, so that every ordered pair is cheap).
+        os.makedirs(os.path.join(d, "s"))
+        open(os.path.join(d, "s", "Sink.java"), "w").write(G.kitchen_sink())
+        r2 = h.call(op="scan", dir=os.path.join(d, "s"), graph="g2")
+        cnt = {}
+        for n in r2.get("nodes", []):
+            cnt[n["type"]] = cnt.get(n["type"], 0) + 1
+        names = sorted(cnt)
+        if run.depth != "quick":
+            # the other spellings of a kind name that FROM accepts
+            names = sorted(set(names) | {k for k, v in tables["envCases"] if any(cases.get(c) == v for c in cnt)})
+        canon_of = lambda k: next((c for c in cnt if c == k), None) or next((c for c in cnt if cases.get(c) == cases.get(k)), None)
+        pair_bad = npairs = 0
+        for k1 in names:
+            for k2 in names:
+                c1, c2 = canon_of(k1), canon_of(k2)
+                if c1 is None or c2 is None or c1 == c2 or cnt[c1] * cnt[c2] > 900:
+                    continue
+                q = "FROM %s AS a, %s AS b WHERE a.toString() == a.toString() && b.toString() == b.toString() SELECT a, b" % (k1, k2)
+                rr = h.call(op="query", graph="g2", q=q, output="json")
+                run.count(("pair", k1, k2))
+                npairs += 1
+                want = cnt[c1] * cnt[c2]
+                got, why = None, ""
+                if rr.get("outcome") == "ok":
+                    try:
+                        js = json.loads(rr["result"])
+                        got = len(js["output"])   # one row per combination (result_set lists every entity of every combination)
+                        if got == want and any(len(row) != 2 or row[0] in ("", None) or row[1] in ("", None) or ("Type: %s," % c1) not in str(row[0]) or ("Type: %s," % c2) not in str(row[1]) for row in js["output"]):
+                            why = "; a SELECT cell is empty or describes another kind"
+                    except Exception:
+                        got = None
+                if rr.get("outcome") == "died":
+                    h.call(op="scan", dir=os.path.join(d, "s"), graph="g2", nonodes=True)
+                if rr.get("outcome") != "ok" or got != want or why:
+                    pair_bad += 1
+                    if pair_bad <= 4:
+                        run.violation("C19:kinds-not-queryable-together:%s+%s" % (c1, c2),
+                                      "kinds %s and %s are produced by the scanner but %r gives outcome=%s results=%s (expected %d = %d x %d)%s" %
+                                      (k1, k2, q, rr.get("outcome"), got, want, cnt[c1], cnt[c2], why),
+                                      dict(java="kitchen_sink()", query=q, outcome=rr.get("outcome"), got=got, want=want, panic=rr.get("panic")))
+        run.extra["kind_pairs_queried"] = npairs
         h.close()
     finally:
         shutil.rmtree(d, ignore_errors=True)
